@@ -57,6 +57,7 @@ let table : (string * (z list -> z)) list = [
   ("camion", judge_camion);
   ("kcompose", judge_kcompose);
   ("kdecomp", judge_kdecomp);
+  ("tree", judge_tree);
 ]
 
 let () =
